@@ -188,7 +188,10 @@ import checks_session as CS
 C08_THEOREMS = ['BinlogVerif.C08.c08_scan_blocks', 'BinlogVerif.C08.c08_scan_blocks_filler', 'BinlogVerif.C08.c08_meta_state_buffers',
                 'BinlogVerif.C08.c08_recovered_sorted', 'BinlogVerif.C08.c08_recovered_content', 'BinlogVerif.C08.c08_no_uncommitted',
                 'BinlogVerif.C08.c08_recovered_entries', 'BinlogVerif.C08.c08_complete_and_printable',
-                'BinlogVerif.C08.c08_complete_and_printable_states']
+                'BinlogVerif.C08.c08_complete_and_printable_states',
+                'BinlogVerif.C08.c08_scan_blocks_inert', 'BinlogVerif.C08.c08_recovered_sorted_inert', 'BinlogVerif.C08.c08_recovered_content_inert',
+                'BinlogVerif.C08.c08_no_uncommitted_inert', 'BinlogVerif.C08.c08_complete_and_printable_inert',
+                'BinlogVerif.C08.c08_recovered_output_junk', 'BinlogVerif.C08.c08_no_uncommitted_junk']
 
 
 def build_crash_harness():
